@@ -31,6 +31,11 @@ type vfBranch struct {
 	Strm  bool       `json:"strm"` // condition implemented on the stream form
 }
 
+type vfStage struct {
+	K  string   `json:"k"` // l (single node) | p (parallel, merged by output key) | b (branch stage)
+	Ns []string `json:"ns"`
+}
+
 type vfFail struct {
 	N    string `json:"n"`
 	Kind string `json:"kind"` // err | panic | cancel
@@ -57,6 +62,8 @@ type vfScenario struct {
 	Post     bool                   `json:"post"` // stateful graphs: also install state post-handlers
 	HMod     bool                   `json:"hmod"` // state handlers modify the value they pass on (pre adds key "pre", post adds key "q<node>")
 	SMod     int                    `json:"smod"` // k > 0: the k-th resume call passes a state modifier that adds 100 to the counter
+	Lower    string                 `json:"lower"`  // "chain": build with compose.Chain from Stages; Edges/Branches hold the lowered graph the rule judges by
+	Stages   []vfStage              `json:"stages"`
 	Echo     []string               `json:"echo"` // nodes that return their input unchanged (so equal keys can meet at a fan-in)
 	Wrap     bool                   `json:"wrap"` // (nested scenario) the inner graph is compiled alone and called from a lambda that wraps its errors
 }
@@ -374,6 +381,10 @@ func (r *vfRun) nodeLambda(prefix string, sc *vfScenario, name string) *Lambda {
 			}
 			return in, nil
 		}
+		if vfBare(sc, name) {
+			// member of a chain's parallel stage: the stage stores this value under the output key <name>
+			return map[string]any{"n": name, "i": vfNorm(in)}, nil
+		}
 		return map[string]any{name: map[string]any{"n": name, "i": vfNorm(in)}}, nil
 	}
 	if fail != nil && fail.Kind == "serr" {
@@ -540,6 +551,51 @@ func (r *vfRun) branch(prefix string, idx int, b vfBranch) *GraphBranch {
 	return NewGraphBranch(func(ctx context.Context, in map[string]any) (string, error) {
 		return decide(ctx, in)[0], nil
 	}, ends)
+}
+
+func vfBare(sc *vfScenario, name string) bool {
+	for _, st := range sc.Stages {
+		if st.K == "p" && vfIn(st.Ns, name) {
+			return true
+		}
+	}
+	return false
+}
+
+// buildChain builds the scenario with the Chain front-end (stages: node, parallel, branch)
+func (r *vfRun) buildChain(sc *vfScenario) (*Chain[map[string]any, map[string]any], error) {
+	ch := NewChain[map[string]any, map[string]any]()
+	bi := 0
+	for _, st := range sc.Stages {
+		switch st.K {
+		case "l":
+			ch.AppendLambda(r.nodeLambda("", sc, st.Ns[0]))
+		case "p":
+			par := NewParallel()
+			for _, n := range st.Ns {
+				par.AddLambda(n, r.nodeLambda("", sc, n))
+			}
+			ch.AppendParallel(par)
+		case "b":
+			b := sc.Branches[bi]
+			idx := bi
+			bi++
+			cb := NewChainBranch(func(ctx context.Context, in map[string]any) (string, error) {
+				d := vfDepth(in)
+				if d >= len(b.Pol) {
+					d = len(b.Pol) - 1
+				}
+				chosen := b.Pol[d]
+				r.cur(ctx).rec.log(map[string]any{"ev": "branch", "p": "", "b": idx + 1, "i": in, "to": vfSorted(chosen)})
+				return chosen[0], nil
+			})
+			for _, n := range st.Ns {
+				cb.AddLambda(n, r.nodeLambda("", sc, n))
+			}
+			ch.AppendBranch(cb)
+		}
+	}
+	return ch, nil
 }
 
 func (r *vfRun) nodeOpts(prefix string, sc *vfScenario, name string) []GraphAddNodeOpt {
@@ -825,15 +881,22 @@ func (r *vfRun) call(rc *vfCall, run Runnable[map[string]any, map[string]any], p
 // compile builds and compiles the scenario once; the runnable may then be driven by several logical runs
 func (r *vfRun) compile(store *vfStore) (run Runnable[map[string]any, map[string]any], err error) {
 	sc := r.sc
-	g, err := r.build("", sc)
-	if err != nil {
-		return nil, err
-	}
 	defer func() {
 		if p := recover(); p != nil {
 			err = fmt.Errorf("compile panic: %v", p)
 		}
 	}()
+	if sc.Lower == "chain" {
+		ch, cerr := r.buildChain(sc)
+		if cerr != nil {
+			return nil, cerr
+		}
+		return ch.Compile(context.Background(), WithCheckPointStore(store))
+	}
+	g, err := r.build("", sc)
+	if err != nil {
+		return nil, err
+	}
 	copts := r.compileOpts(sc, store)
 	if wf, ok := g.(*Workflow[map[string]any, map[string]any]); ok {
 		return wf.Compile(context.Background(), copts...)
